@@ -1,7 +1,7 @@
 use crate::{
     cfg::Cfg,
     parser::{Label, ParserNode},
-    passes::{DiagnosticManager, LintError, LintPass},
+    passes::{DiagnosticLocation, DiagnosticManager, LintError, LintPass},
 };
 use uuid::Uuid;
 
@@ -31,7 +31,11 @@ impl LintPass for OverlappingFunctionCheck {
                         token: l.raw_token().clone(),
                     })
                     .collect::<Vec<_>>();
-                let label = labels.first();
+                // Name the first of the entry's labels in the source, not
+                // whichever the label set happens to yield first
+                let label = labels
+                    .iter()
+                    .min_by_key(|l| l.name.range().start().raw_index());
 
                 if let Some(l) = label {
                     errors.push(LintError::NodeInManyFunctions(
